@@ -290,9 +290,11 @@ namespace Pistache::Http
             if (!match_until(' ', cursor))
                 return State::Again;
 
+            // the buffer is not NUL-terminated: convert a bounded copy of the token
+            const std::string codeText = codeToken.text();
             char* end;
-            auto code = strtol(codeToken.rawText(), &end, 10);
-            if (*end != ' ')
+            auto code = strtol(codeText.c_str(), &end, 10);
+            if (codeText.empty() || *end != '\0')
                 raise("Failed to parse return code");
             response->code_ = static_cast<Http::Code>(code);
 
